@@ -2,6 +2,7 @@ package sizes
 
 import (
 	"encoding/json"
+	"strconv"
 	"strings"
 
 	"github.com/github/git-sizer/counts"
@@ -254,7 +255,16 @@ func VPH_refgroupRows() {
 	vp_Assert(idx == len(wantRows), "one row per tallied group, in order, under its display name, indented by its depth")
 	vp_Assert(!strings.Contains(out, "Refs to walk"), "the top-level pseudo group is not a row")
 	vp_Assert(strings.Count(out, "* Group") == len(wantRows)-1, "groups without a tally print nothing")
-	if !vp_Native() {
+	if vp_Native() {
+		// the real Humaner ran: each row's value cell holds the group's own tally (all below 1000: printed exactly)
+		k := 0
+		for _, l := range lines {
+			if k < len(wantRows) && strings.HasPrefix(l, "| "+wantRows[k]+" ") {
+				vp_Assert(strings.Contains(l, " "+strconv.FormatUint(wantVals[k], 10)+" "), "each refgroup row shows its own tally")
+				k++
+			}
+		}
+	} else {
 		// the numerals rendered for those rows are the groups' own tallies (after the 9 size rows and the reference count)
 		found := 0
 		for _, v := range rendered {
